@@ -229,7 +229,15 @@ func c11RandHistory(r *rand.Rand, n int, allowCopy bool) []slOp {
 		case x < 94:
 			ops = append(ops, slOp{Op: "appendspread", V: v, Src: s, From: 1 + r.Intn(c11NV)})
 		default:
-			if allowCopy {
+			if allowCopy && v != s && r.Intn(2) == 0 {
+				// overlapping copy inside one backing array: shift right (insert idiom) or left (delete idiom)
+				ops = append(ops, slOp{Op: "lit", V: v, Elems: randInts(r, 4+r.Intn(3))})
+				if r.Intn(2) == 0 {
+					ops = append(ops, slOp{Op: "sub", V: s, Src: v, I: -1, N: 1}, slOp{Op: "copy", V: s, Src: v})
+				} else {
+					ops = append(ops, slOp{Op: "sub", V: s, Src: v, I: -1, N: 1}, slOp{Op: "copy", V: v, Src: s})
+				}
+			} else if allowCopy {
 				ops = append(ops, slOp{Op: "copy", V: v, Src: s})
 			} else {
 				ops = append(ops, slOp{Op: "append", V: v, Src: v, Elems: randInts(r, 1)})
@@ -268,6 +276,8 @@ func c11Concretize(r *rand.Rand, ops []slOp, failLast bool) []slOp {
 						}
 					}
 				}
+			} else if op.N == 1 && n >= 2 {
+				op.I, op.J = 1, n // the tail: overlaps the source from its second element on
 			} else {
 				op.I = r.Intn(n + 1)
 				op.J = op.I + r.Intn(n-op.I+1)
